@@ -14,6 +14,7 @@ package main
 import (
 	"bytes"
 	"context"
+	"crypto"
 	"crypto/sha256"
 	"encoding/hex"
 	"encoding/json"
@@ -76,6 +77,8 @@ type c17Case struct {
 	AltProv     []byte   `json:"alt_prov"`     // same archive, signed by the OTHER key
 	EvilArchive []byte   `json:"evil_archive"` // a different archive of the same name
 	EvilProv    []byte   `json:"evil_prov"`    // its provenance, signed by the OTHER key
+	// hand-made messages clear-signed by the TRUSTED key (three parts, odd sums entries, ...)
+	Customs map[string][]byte `json:"customs"`
 	Muts        []c17Mut `json:"muts"`
 	Dls         []c17Dl  `json:"dls"`
 }
@@ -221,6 +224,11 @@ func c17Chart(r *rand.Rand, evil bool) *chart.Chart {
 	return ch
 }
 
+func c17Hex(b []byte) string {
+	h := sha256.Sum256(b)
+	return hex.EncodeToString(h[:])
+}
+
 func c17Sample(r *rand.Rand, n, k int) []int {
 	if n <= k {
 		out := make([]int, n)
@@ -276,7 +284,49 @@ func c17Build(r *rand.Rand, exhaustive bool) c17Case {
 	}
 	c.EvilProv = []byte(s)
 
+	// messages of unusual shape, signed by the trusted key itself
+	realSum := "sha256:" + c17Hex(c.Archive)
+	evilSum := "sha256:" + c17Hex(c.EvilArchive)
+	meta, _ := yaml.Marshal(ch.Metadata)
+	sums := func(name, v string) string { return "files:\n  " + name + ": " + v + "\n" }
+	c.Customs = map[string][]byte{}
+	for key, msg := range map[string]string{
+		"three-real-evil": string(meta) + "\n...\n" + sums(c.Name, realSum) + "\n...\n" + sums(c.Name, evilSum),
+		"three-evil-real": string(meta) + "\n...\n" + sums(c.Name, evilSum) + "\n...\n" + sums(c.Name, realSum),
+		"prefix-hash":     string(meta) + "\n...\n" + sums(c.Name, realSum[:20]),
+		"upper-hash":      string(meta) + "\n...\n" + sums(c.Name, "sha256:"+strings.ToUpper(realSum[7:])),
+		"bare-hash":       string(meta) + "\n...\n" + sums(c.Name, realSum[7:]),
+		"one-part":        string(meta) + "\n" + sums(c.Name, realSum),
+		"other-name":      string(meta) + "\n...\n" + sums("y"+c.Name, realSum),
+		"two-names":       string(meta) + "\n...\n" + sums("y"+c.Name, evilSum) + "  " + c.Name + ": " + realSum + "\n",
+		"bad-meta":        "name: [unclosed\n...\n" + sums(c.Name, realSum),
+		"sums-not-map":    string(meta) + "\n...\nfiles: 7\n",
+		"path-name":       string(meta) + "\n...\n" + sums("sub/dir/"+c.Name, realSum),
+	} {
+		var buf bytes.Buffer
+		w, err := clearsign.Encode(&buf, k.signer.PrivateKey, &packet.Config{DefaultHash: crypto.SHA512})
+		if err != nil {
+			panic(err)
+		}
+		io.WriteString(w, msg)
+		if err := w.Close(); err != nil {
+			panic(err)
+		}
+		c.Customs[key] = buf.Bytes()
+	}
+
 	add := func(m c17Mut) { c.Muts = append(c.Muts, m) }
+	for _, key := range []string{"three-real-evil", "three-evil-real", "prefix-hash", "upper-hash", "bare-hash", "one-part", "other-name",
+		"two-names", "bad-meta", "sums-not-map", "path-name"} {
+		for v := 0; v < 2; v++ {
+			e := "reject"
+			if (key == "three-real-evil" || key == "two-names") && v == 0 || key == "three-evil-real" && v == 1 {
+				e = "accept"
+			}
+			add(c17Mut{T: "prov", Op: "custom", S: key, Val: v, KR: "signer", Expect: e})
+		}
+	}
+	add(c17Mut{T: "prov", Op: "custom-subdir", S: "path-name", KR: "signer", Expect: "reject"})
 	for _, kr := range []string{"signer", "both"} {
 		add(c17Mut{T: "none", KR: kr, Expect: "accept"})
 	}
@@ -506,6 +556,14 @@ func c17Apply(c *c17Case, m c17Mut) (archive, prov []byte, rel string) {
 			if i >= 0 {
 				prov[i+1] = ','
 			}
+		case "custom", "custom-subdir":
+			prov = c.Customs[m.S]
+			if m.Val == 1 {
+				archive = c.EvilArchive
+			}
+			if m.Op == "custom-subdir" {
+				rel = filepath.Join("sub/dir", c.Name)
+			}
 		case "alt":
 			prov = c.AltProv
 		case "evil":
@@ -665,6 +723,13 @@ func (p *c17) Execute(ci any) any {
 	for i, d := range c.Dls {
 		obs.Dls = append(obs.Dls, c17RunDl(&c, d, filepath.Join(work, fmt.Sprintf("d%d", i)), rings))
 	}
+	c17Count("mutant_verifications (Signatory.Verify + VerifyChart each)", len(obs.Res))
+	c17Count("strategy_runs (DownloadTo / LocateChart / Pull)", len(obs.Dls))
+	for _, r := range obs.Res {
+		if r.OK {
+			c17Count("mutants_accepted", 1)
+		}
+	}
 	return obs
 }
 
@@ -743,6 +808,11 @@ func c17RunDl(c *c17Case, d c17Dl, dir string, rings map[string]string) (res c17
 		}
 	}
 	return res
+}
+
+func c17Count(key string, n int) {
+	v, _ := hx.Extra[key].(int)
+	hx.Extra[key] = v + n
 }
 
 // ---------------------------------------------------------------- oracle
